@@ -214,10 +214,11 @@ class System(object):
         new = None  # (Rs, ps, stamps) of the model after the operation
         Rs, ps, ts = st.Rs, st.ps, st.stamps
         n = len(Rs)
+        mag = max([1.0] + [float(np.abs(p).max()) for p in ps])
         try:
             if name == "read_pos":
                 val = o.positions_xyz
-                if check and not common.close(val, np.array(ps), 10):
+                if check and not common.close(val, np.array(ps), mag):
                     msgs.append("positions_xyz read differs from the model")
                 new = (Rs, ps, ts)
             elif name == "read_quat":
@@ -230,7 +231,7 @@ class System(object):
             elif name == "read_mat":
                 val = o.poses_se3
                 if check and not all(
-                        common.close(M, geom.pose(R, p), 10)
+                        common.close(M, geom.pose(R, p), mag)
                         for M, R, p in zip(val, Rs, ps)):
                     msgs.append("poses_se3 read differs from the model")
                 new = (Rs, ps, ts)
@@ -270,7 +271,8 @@ class System(object):
                 steps = [float(np.linalg.norm(ps[k + 1] - ps[k]))
                          for k in range(n - 1)]
                 if check and not common.close(
-                        d, np.concatenate([[0.0], np.cumsum(steps)]), 10):
+                        d, np.concatenate([[0.0], np.cumsum(steps)]),
+                        mag * max(1, n)):
                     msgs.append("distances read differ from the model")
                 new = (Rs, ps, ts)
             elif name in ("left", "right", "right_prop"):
